@@ -114,7 +114,7 @@ class Ctx:
         self.errors.append(msg)
         self.rules[rid].instances.append((f"{relpath}::{qual}: {cons}", "UNRECOGNISED", why))
 
-    def defer(self, structural, semantic):
+    def defer(self, structural, semantic, only=None):
         """`structural` rules know ONE code shape for a clause that the `semantic` (interpreted) rules decide from behaviour.
         When every semantic rule is fully decided and holds, a structural rule that does not find its shape -- or finds
         another one -- says nothing about behaviour: its VIOLATED / UNRECOGNISED outcomes become HOLDS with that
@@ -133,13 +133,13 @@ class Ctx:
                 continue
             changed = False
             for k, (site, outcome, detail) in enumerate(r.instances):
-                if outcome in ("VIOLATED", "UNRECOGNISED"):
+                if outcome in ("VIOLATED", "UNRECOGNISED") and (only is None or only in str(site)):
                     r.instances[k] = (site, "HOLDS", why)
                     changed = True
             if changed:
                 r.floor = min(r.floor, sum(1 for i in r.instances if i[1] in ("HOLDS", "VIOLATED")))  # the semantic rules carry their own floors
-                self.violations = [v for v in self.violations if v.rule != rid]
-                self.errors = [e for e in self.errors if not e.startswith(rid + " ") and not e.startswith(rid + ":")]
+                self.violations = [v for v in self.violations if v.rule != rid or (only is not None and only not in f"{v.relpath}::{v.qualname}: {v.construct}")]
+                self.errors = [e for e in self.errors if not (e.startswith(rid + " ") or e.startswith(rid + ":")) or (only is not None and only not in e)]
                 self.notes.append(f"{rid}: deferred to {', '.join(semantic)}")
 
     def undecided(self, rid, site, why):
